@@ -38,13 +38,20 @@ def selftest_records(obs, corruptions, first_id):
 
 
 def selftest_verdict(expect, fails_by_id):
-    """the corrupted observation must be rejected with an obligation (prefix `want') that its source does not fail"""
+    """the corrupted observation must be rejected with an obligation (prefix `want') that its source does not fail; when the
+    source itself already fails every such obligation (defective tree) the test is inconclusive. Returns (conclusive, inconclusive)."""
+    ok = inconclusive = 0
     for name, want, src, cid in expect:
-        got = [f for f in fails_by_id.get(cid, []) if f.startswith(want)]
-        had = [f for f in fails_by_id.get(src, []) if f.startswith(want)]
-        if not got or set(got) <= set(had):
-            raise Broken("judge self-test '%s': the corrupted observation is not rejected with %s* (rejected with %s, its source with %s): "
-                         "the judge is vacuous" % (name, want, fails_by_id.get(cid, []), fails_by_id.get(src, [])))
+        got = {f for f in fails_by_id.get(cid, []) if f.startswith(want)}
+        had = {f for f in fails_by_id.get(src, []) if f.startswith(want)}
+        if got - had:
+            ok += 1
+        elif had:
+            inconclusive += 1
+        else:
+            raise Broken("judge self-test '%s': the corrupted observation is not rejected with %s* (rejected with %s): "
+                         "the judge is vacuous" % (name, want, fails_by_id.get(cid, [])))
+    return ok, inconclusive
 
 
 def pipeline(ctx, gen, judge, harness, lib, rule, nontrivial, assumptions, sig, corruptions=(), describe=None,
@@ -79,9 +86,8 @@ def pipeline(ctx, gen, judge, harness, lib, rule, nontrivial, assumptions, sig, 
         judged = ctx.path("obs+selftest.ndjson")
         core.write_ndjson(judged, obs + recs)
     bad, jr = ctx.judge(judge, judged, env=env, heap=judge_heap)
-    selftest_verdict(expect, {b["id"]: b["fails"] for b in bad})
-    ntests = len(expect)
-    ctx.judged = getattr(ctx, "judged", 0) - ntests
+    ntests, ninconclusive = selftest_verdict(expect, {b["id"]: b["fails"] for b in bad})
+    ctx.judged = getattr(ctx, "judged", 0) - len(expect)
     bad = [b for b in bad if b["id"] not in {e[3] for e in expect}]
     byid = {c["id"]: c for c in cases}
     for b in bad:
@@ -99,7 +105,7 @@ def pipeline(ctx, gen, judge, harness, lib, rule, nontrivial, assumptions, sig, 
                 nt += 1
     cov = {"evaluations": len(obs), "distinct_nontrivial": nt, "rule": rule, "samples": cases[:2] + cases[len(cases) // 2:len(cases) // 2 + 1] + cases[-2:],
            "exhaustive": True, "rejected_observations": len(bad), "gen_module": gen, "judge_module": judge,
-           "judge_selftests_rejected": ntests,
+           "judge_selftests_rejected": ntests, "judge_selftests_inconclusive": ninconclusive,
            "interface_calls": sum(int(o.get("ncalls", 0)) for o in obs)}
     if describe and ctx.replay_only is None:
         cov.update(describe(cases, obs))
